@@ -129,6 +129,9 @@ pub struct History {
     pub hash_keys: u64,
     pub steps: u64,
     pub final_builder: Option<csl::TransactionBuilder>,
+    /// keys the history told the inputs builder will sign, outside the witnesses it declared (a key entry point
+    /// used on the way): (op, key hash)
+    pub told_keys: Vec<(usize, Vec<u8>)>,
 }
 
 fn panic_msg(e: Box<dyn std::any::Any + Send>) -> String {
@@ -280,6 +283,7 @@ impl<'a> Session<'a> {
                 hash_keys: 0,
                 steps: 0,
                 final_builder: None,
+                told_keys: vec![],
             },
             balanced_at: None,
             dirty_balance: false,
@@ -354,7 +358,22 @@ impl<'a> Session<'a> {
 
     pub fn redeemer(&self, tag: &csl::RedeemerTag, w: &Wit) -> csl::Redeemer {
         let data = csl::PlutusData::new_integer(&csl::BigInt::from_str(&(1_000_000u64 + w.red as u64).to_string()).unwrap());
-        csl::Redeemer::new(tag, &bn(0), &data, &csl::ExUnits::new(&bn(w.mem), &bn(w.steps)))
+        // one redeemer in four arrives with the tag and index of some other use (an object the caller re-used):
+        // the builders stamp purpose and index themselves
+        let (tag, index) = if w.red % 4 == 3 {
+            let t = match w.red % 6 {
+                0 => csl::RedeemerTag::new_spend(),
+                1 => csl::RedeemerTag::new_mint(),
+                2 => csl::RedeemerTag::new_cert(),
+                3 => csl::RedeemerTag::new_reward(),
+                4 => csl::RedeemerTag::new_vote(),
+                _ => csl::RedeemerTag::new_voting_proposal(),
+            };
+            (t, 3 + (w.red % 7) as u64)
+        } else {
+            (tag.clone(), 0)
+        };
+        csl::Redeemer::new(&tag, &bn(index), &data, &csl::ExUnits::new(&bn(w.mem), &bn(w.steps)))
     }
 
     fn native_source(&self, w: &Wit) -> Option<csl::NativeScriptSource> {
@@ -1016,13 +1035,22 @@ impl<'a> Session<'a> {
                 let val = self.w.value(ut.coin, &ut.assets);
                 let full = self.utxo_as_handed_over(*utxo, idx);
                 let outpoint = self.w.outpoint(*utxo);
-                if let (Some(ms), true) = (mistaken, self.is_plutus(wit)) {
+                // (bit 14 of the id: between the mistaken and the right hand-over the input also goes through the key entry
+                // point, which does not look at the address either - three hand-overs of one outpoint)
+                let detour = mistaken.map_or(false, |m| m & 0x4000 != 0);
+                let mistaken = mistaken.map(|m| m & 0x3fff);
+                if let (Some(ms), true) = (&mistaken, self.is_plutus(wit)) {
                     if (*ms as usize) < self.w.scripts.len() && *ms != wit.script && self.w.scripts[*ms as usize].is_plutus() {
                         let wrong = Wit { script: *ms, how: ScriptUse::Witness, datum: DatumUse::None, red: wit.red.wrapping_add(500_000_000), mem: 1, steps: 1, signers: None };
                         if let Some(pw) = self.plutus_witness(&csl::RedeemerTag::new_spend(), &wrong) {
                             self.inb.add_plutus_script_input(&pw, &input, &val);
                             // replaced at once by the call below: never live
                             self.h.attaches.push(Attach { op: idx, red: wrong.red, purpose: Purpose::Spend(outpoint.0.clone(), outpoint.1), script: wrong.script, live: false });
+                            if detour {
+                                // (the key entry point registers its key as a signer for good: the wallet has told the builder so)
+                                self.inb.add_key_input(&key(0).hash, &input, &val);
+                                self.h.told_keys.push((idx, key(0).hash_bytes.to_vec()));
+                            }
                         }
                     }
                 }
